@@ -30,9 +30,16 @@ def child_ref(owner, field, key=None):
     return core.Ref.Old(z3.IntVal(owner), z3.IntVal(core.fld_id(field)), key if key is not None else core.KNONE)
 
 
+def registered_class(v):
+    from .frontend import PRIMITIVES
+
+    cn = core.cname(core.SH(v))
+    return z3.Or([cn == core.strlit(c) for c in PRIMITIVES])
+
+
 def child_facts(st, ref, bk=False):
     v = core.V0(ref)
-    st.add(core.wfv(v), core.E(v) >= 0)
+    st.add(core.wfv(v), core.E(v) >= 0, registered_class(v), z3.Implies(core.has_qname(v), core.has_quantity(v)))
     if bk:
         st.add(core.bkv(v))
 
@@ -59,7 +66,7 @@ def child_list(st, owner, field, n, with_float=None, is_tuple=False, bk=False, t
     own = z3.IntVal(owner)
     i = z3.Int(f"wf.{tagname or field}{owner}.i")
     ref_i = core.Ref.Old(own, z3.IntVal(fid), core.KInt(i))
-    body = [core.wfv(core.V0(ref_i)), core.E(core.V0(ref_i)) >= 0]
+    body = [core.wfv(core.V0(ref_i)), core.E(core.V0(ref_i)) >= 0, registered_class(core.V0(ref_i)), z3.Implies(core.has_qname(core.V0(ref_i)), core.has_quantity(core.V0(ref_i)))]
     if bk:
         body.append(core.bkv(core.V0(ref_i)))
     st.forall(i, z3.And(i >= 0, i < n), z3.And(body), name=f"wf-children-{field}")
@@ -88,7 +95,7 @@ def child_dict(st, owner, field, keykind, bk=False):
     st.add(n >= 0)
     k = z3.Const(f"wf.{field}{owner}.k", core.Key)
     ref_k = core.Ref.Old(own, z3.IntVal(fid), k)
-    body = [core.wfv(core.V0(ref_k)), core.E(core.V0(ref_k)) >= 0]
+    body = [core.wfv(core.V0(ref_k)), core.E(core.V0(ref_k)) >= 0, registered_class(core.V0(ref_k)), z3.Implies(core.has_qname(core.V0(ref_k)), core.has_quantity(core.V0(ref_k)))]
     if keykind == "int":
         body.append(core.Key.is_KInt(k))
     elif keykind == "str":
@@ -123,7 +130,7 @@ def make_instance(st, cls, owner, mode="live", bk=False, opts=None):
     if cls != "Count" and cls not in ("Label", "UntypedLabel", "Index", "Branch"):
         f["quantity"] = sym_userfcn(st, p + ".quantity", mode)
     if cls == "Count":
-        if opts.get("transform", "identity") == "identity" and mode == "live":
+        if opts.get("transform", "identity") == "identity":
             from .builtins_model import Builtins
 
             f["transform"] = Builtins.global_userfcn(None, st, "identity")
@@ -150,7 +157,7 @@ def make_instance(st, cls, owner, mode="live", bk=False, opts=None):
     elif cls == "Fraction":
         f["numerator"] = sym_child(st, o, "numerator", bk)
         f["denominator"] = sym_child(st, o, "denominator", bk)
-        st.add(core.SH(core.V0(f["numerator"].ref)) == core.SH(core.V0(f["denominator"].ref)))
+        st.add(*same_template(core.V0(f["numerator"].ref), core.V0(f["denominator"].ref)))
     elif cls == "Bin":
         f["low"] = VFl(sym_fl(st, p + ".low", "fin"))
         f["high"] = VFl(sym_fl(st, p + ".high", "fin"))
@@ -170,7 +177,7 @@ def make_instance(st, cls, owner, mode="live", bk=False, opts=None):
         template(st, f, o, mode, bk)
         shape_uniform_dict(st, o, "bins", dom, f)
     elif cls == "Categorize":
-        f["bins"], dom, n = child_dict(st, o, "bins", "strbool", bk)
+        f["bins"], dom, n = child_dict(st, o, "bins", opts.get("catkeys", "strbool"), bk)
         template(st, f, o, mode, bk)
         shape_uniform_dict(st, o, "bins", dom, f)
     elif cls == "CentrallyBin":
@@ -189,7 +196,7 @@ def make_instance(st, cls, owner, mode="live", bk=False, opts=None):
         if isinstance(f["value"], VChild):
             tv = core.V0(f["value"].ref)
             b0 = core.V0(child_ref(o, "bins", core.KInt(z3.IntVal(0))))
-            st.add(core.SH(b0) == core.SH(tv), core.zk(b0) == core.zk(tv))
+            st.add(*same_template(b0, tv))
     elif cls in ("IrregularlyBin", "Stack"):
         n = z3.Int(p + ".nbins")
         st.add(n >= 1)
@@ -249,6 +256,17 @@ def template(st, f, o, mode, bk, ctype=True):
             f["contentType"] = VStr(z3.Const(f"ctype{o}", core.StrS))
 
 
+def same_template(a, b):
+    """children made from one template: same shape, same zero, same quantity name"""
+    return [
+        core.SH(a) == core.SH(b),
+        core.zk(a) == core.zk(b),
+        core.has_quantity(a) == core.has_quantity(b),
+        core.has_qname(a) == core.has_qname(b),
+        core.qname(a) == core.qname(b),
+    ]
+
+
 def shape_uniform_list(st, o, field, n, classes_only=False):
     """wf: all children of a binning container have the same shape (they come from one template)."""
     fid = z3.IntVal(core.fld_id(field))
@@ -262,7 +280,7 @@ def shape_uniform_list(st, o, field, n, classes_only=False):
             core.bagrange(core.SH(core.V0(r_i))) == core.bagrange(core.SH(core.V0(r_0))),
         )
     else:
-        body = z3.And(core.SH(core.V0(r_i)) == core.SH(core.V0(r_0)), core.zk(core.V0(r_i)) == core.zk(core.V0(r_0)))
+        body = z3.And(same_template(core.V0(r_i), core.V0(r_0)))
     st.forall(i, z3.And(i >= 0, i < n), body, name=f"wf-uniform-{field}")
 
 
@@ -271,14 +289,20 @@ def shape_uniform_dict(st, o, field, dom, f, classes_only=False):
     own = z3.IntVal(o)
     k = z3.Const(f"wf.shape.{field}{o}.k", core.Key)
     r_k = core.Ref.Old(own, fid, k)
+    tmpl = None
     if f is not None and isinstance(f.get("value"), VChild):
-        sh = core.SH(core.V0(f["value"].ref))
-        zk_ = core.zk(core.V0(f["value"].ref))
+        tmpl = core.V0(f["value"].ref)
+        sh = core.SH(tmpl)
+        zk_ = core.zk(tmpl)
     else:
         sh = z3.Const(f"shape.{field}{o}", core.Shape)
         zk_ = z3.Const(f"zk.{field}{o}", core.Shape)
     if classes_only:
         body = z3.And(core.cname(core.SH(core.V0(r_k))) == core.cname(sh), core.bagrange(core.SH(core.V0(r_k))) == core.bagrange(sh))
+    elif tmpl is not None:
+        body = z3.And(same_template(core.V0(r_k), tmpl))
     else:
-        body = z3.And(core.SH(core.V0(r_k)) == sh, core.zk(core.V0(r_k)) == zk_)
+        hq, hn, qn = z3.Bool(f"hq.{field}{o}"), z3.Bool(f"hn.{field}{o}"), z3.Const(f"qn.{field}{o}", core.StrS)
+        vk = core.V0(r_k)
+        body = z3.And(core.SH(vk) == sh, core.zk(vk) == zk_, core.has_quantity(vk) == hq, core.has_qname(vk) == hn, core.qname(vk) == qn)
     st.forall(k, dom(k), body, name=f"wf-uniform-{field}")
